@@ -156,6 +156,45 @@ impl Cfg {
             min_sub: n("minsub"),
         }
     }
+    /// Applies the settings through the public setters in an order derived from `salt` (setters
+    /// commute by specification, Builder!Effect); salt 0 is the canonical order of `apply`.
+    pub fn apply_permuted(&self, b: &mut RegExpBuilder, salt: u64) {
+        if salt == 0 {
+            return self.apply(b);
+        }
+        let mut calls: Vec<Box<dyn Fn(&mut RegExpBuilder)>> = vec![];
+        if self.digit { calls.push(Box::new(|b| { b.with_conversion_of_digits(); })); }
+        if self.nondigit { calls.push(Box::new(|b| { b.with_conversion_of_non_digits(); })); }
+        if self.space { calls.push(Box::new(|b| { b.with_conversion_of_whitespace(); })); }
+        if self.nonspace { calls.push(Box::new(|b| { b.with_conversion_of_non_whitespace(); })); }
+        if self.word { calls.push(Box::new(|b| { b.with_conversion_of_words(); })); }
+        if self.nonword { calls.push(Box::new(|b| { b.with_conversion_of_non_words(); })); }
+        if self.rep { calls.push(Box::new(|b| { b.with_conversion_of_repetitions(); })); }
+        if self.icase { calls.push(Box::new(|b| { b.with_case_insensitive_matching(); })); }
+        if self.capture { calls.push(Box::new(|b| { b.with_capturing_groups(); })); }
+        if self.escape { let s = self.surr; calls.push(Box::new(move |b| { b.with_escaping_of_non_ascii_chars(s); })); }
+        if self.verbose { calls.push(Box::new(|b| { b.with_verbose_mode(); })); }
+        if self.nostart && self.noend && salt % 3 == 0 {
+            calls.push(Box::new(|b| { b.without_anchors(); }));
+        } else {
+            if self.nostart { calls.push(Box::new(|b| { b.without_start_anchor(); })); }
+            if self.noend { calls.push(Box::new(|b| { b.without_end_anchor(); })); }
+        }
+        if self.color { calls.push(Box::new(|b| { b.with_syntax_highlighting(); })); }
+        if self.min_rep != 1 { let n = self.min_rep; calls.push(Box::new(move |b| { b.with_minimum_repetitions(n); })); }
+        if self.min_sub != 1 { let n = self.min_sub; calls.push(Box::new(move |b| { b.with_minimum_substring_length(n); })); }
+        // Fisher-Yates with a tiny LCG seeded by salt
+        let mut x = salt.wrapping_mul(6364136223846793005).wrapping_add(1442695040888963407);
+        for i in (1..calls.len()).rev() {
+            x = x.wrapping_mul(6364136223846793005).wrapping_add(1442695040888963407);
+            let j = (x >> 33) as usize % (i + 1);
+            calls.swap(i, j);
+        }
+        for c in calls {
+            c(b);
+        }
+    }
+
     /// Applies the settings through the public setters, in a fixed canonical order.
     pub fn apply(&self, b: &mut RegExpBuilder) {
         if self.digit {
@@ -235,10 +274,18 @@ pub struct RunRaw {
 
 /// One build of the real code on `input` (list as given) under `cfg`, hooks recording.
 pub fn run_build(input: &[String], cfg: &Cfg, schedule: Option<Vec<usize>>) -> RunRaw {
+    // the order of the setter calls is varied from run to run (derived from the input and settings)
+    let salt = {
+        use std::hash::{Hash, Hasher};
+        let mut h = std::collections::hash_map::DefaultHasher::new();
+        input.hash(&mut h);
+        cfg.hash(&mut h);
+        h.finish() | 1
+    };
     grex::verif::start(schedule.clone());
     let outcome = catch_unwind(AssertUnwindSafe(|| {
         let mut b = RegExpBuilder::from(input);
-        cfg.apply(&mut b);
+        cfg.apply_permuted(&mut b, salt);
         b.build()
     }));
     let (events, class_sizes) = grex::verif::take();
